@@ -17,11 +17,14 @@ type Scenario struct {
 	WatchMinUs  int64     `json:"watch_min_us"`
 	WatchMaxUs  int64     `json:"watch_max_us"`
 	// PartTimeoutUs: how long a partitioned / timed-out operation takes to fail (client request time-out).
-	PartTimeoutUs int64  `json:"part_timeout_us"`
-	Steps         []Step `json:"steps"`
-	Rules         []Rule `json:"rules"`
-	EndUs         int64  `json:"end_us"`
-	Family        string `json:"family"`
+	PartTimeoutUs int64 `json:"part_timeout_us"`
+	// ErrDialect "plain": the store's own refusals carry the plain texts of a simple KeyValue implementation (the
+	// repository's mock: "key already exists", "key not found", "revision mismatch") instead of the NATS client's values.
+	ErrDialect string `json:"err_dialect"`
+	Steps      []Step `json:"steps"`
+	Rules      []Rule `json:"rules"`
+	EndUs      int64  `json:"end_us"`
+	Family     string `json:"family"`
 	// Tags are free-form (generator name, origin of the schedule); copied into the reset event.
 	Origin string `json:"origin"`
 	// Script: strict mode. Every store operation and watch delivery is held until a script step releases it;
